@@ -2,6 +2,7 @@ package main
 
 import (
 	"context"
+	"os/exec"
 	"fmt"
 	"math/rand"
 	"os"
@@ -343,7 +344,18 @@ func (c *asmCase) run(work string) asmResult {
 			if k < len(seedPaths) {
 				path = seedPaths[k]
 			} else {
-				path = filepath.Join(dir, "missing-seed")
+				// a seed whose file cannot be opened: missing (ENOENT), below a regular file (ENOTDIR), or a
+				// symbolic link to itself (ELOOP) - whatever the reason, the seed must be treated as invalid
+				switch k % 3 {
+				case 0:
+					path = filepath.Join(dir, "missing-seed")
+				case 1:
+					os.WriteFile(filepath.Join(dir, "plain-file"), []byte("x"), 0644)
+					path = filepath.Join(dir, "plain-file", "seed")
+				default:
+					path = filepath.Join(dir, "loop-seed")
+					os.Symlink("loop-seed", path)
+				}
 			}
 			reflink[path] = s.rf
 		}
@@ -623,7 +635,7 @@ func genAsmCase(rng *rand.Rand) asmGen {
 		case r < 16:
 			s.table = nil
 		case r < 17 && rng.Intn(2) == 0: // the seed file cannot be opened
-			s.src = "99"
+			s.src = []string{"99", "100", "101"}[rng.Intn(3)] // missing / below a regular file / a link to itself
 		case r < 17: // the seed index lies about a size
 			if len(s.table) > 0 {
 				i := rng.Intn(len(s.table))
@@ -943,7 +955,87 @@ func runC01(cfg Config) {
 			rep.Count(l2, r2.status == "ok", "n>1", "status:"+r2.status)
 		}
 	}
+	c01CLI(cfg, rep, rng)
 	rep.Write(cfg.Out)
+}
+
+// c01CLI runs the real `desync extract`: exit status 0 must come with an output file equal to the blob, whatever
+// options were given (--print-stats, -k, seeds, worker counts) and whatever the store lacks
+func c01CLI(cfg Config, rep *Report, rng *rand.Rand) {
+	self, _ := os.Executable()
+	bin := filepath.Join(filepath.Dir(self), "desync")
+	if _, err := os.Stat(bin); err != nil {
+		rep.Notes = append(rep.Notes, "desync binary not built: command-line extract runs skipped")
+		return
+	}
+	dir := filepath.Join(cfg.Work, "cli")
+	os.MkdirAll(dir, 0755)
+	defer os.RemoveAll(dir)
+	for it := 0; it < cfg.N(6, 60); it++ {
+		blob := randBytes(rng, 20000+rng.Intn(60000))
+		if it%3 == 1 { // repeats and a run of zeros
+			blob = append(append(blob[:8000:8000], make([]byte, 40000)...), blob[:12000]...)
+		}
+		old := append([]byte{}, blob...)
+		for k := 0; k < 5; k++ {
+			old[rng.Intn(len(old))] ^= 0xff
+		}
+		blobFile, idxFile, storeDir := filepath.Join(dir, "blob"), filepath.Join(dir, "blob.caibx"), filepath.Join(dir, "store")
+		seedFile, seedIdx := filepath.Join(dir, "seed"), filepath.Join(dir, "seed.caibx")
+		os.RemoveAll(storeDir)
+		os.MkdirAll(storeDir, 0755)
+		os.WriteFile(blobFile, blob, 0644)
+		os.WriteFile(seedFile, old, 0644)
+		st, _ := desync.NewLocalStore(storeDir, desync.StoreOptions{})
+		mk := func(data []byte, out string, store bool) desync.Index {
+			ch, _ := desync.NewChunker(strings.NewReader(string(data)), 512, 2048, 8192)
+			var ws desync.WriteStore = newMemStore()
+			if store {
+				ws = st
+			}
+			ix, _ := desync.ChunkStream(context.Background(), ch, ws, 2)
+			f, _ := os.Create(out)
+			ix.WriteTo(f)
+			f.Close()
+			return ix
+		}
+		idx := mk(blob, idxFile, true)
+		mk(old, seedIdx, false)
+		if len(idx.Chunks) == 0 {
+			continue
+		}
+		// the store lacks one chunk in two of three rounds
+		lacking := it%3 != 2
+		if lacking {
+			id := idx.Chunks[rng.Intn(len(idx.Chunks))].ID
+			st.RemoveChunk(id)
+		}
+		for _, opts := range [][]string{{}, {"--print-stats"}, {"-k"}, {"-k", "--print-stats"}, {"--seed", seedIdx}, {"--seed", seedIdx, "--print-stats", "-n", "1"}} {
+			out := filepath.Join(dir, "out")
+			os.Remove(out)
+			prior := "absent"
+			if rng.Intn(2) == 0 {
+				os.WriteFile(out, old, 0644)
+				prior = "older-version"
+			}
+			args := append([]string{"extract", "-s", storeDir}, opts...)
+			args = append(args, idxFile, out)
+			ctx, cancel := context.WithTimeout(context.Background(), 60*time.Second)
+			cmd := exec.CommandContext(ctx, bin, args...)
+			cmd.Env = append(os.Environ(), "HOME="+dir)
+			err := cmd.Run()
+			cancel()
+			got, _ := os.ReadFile(out)
+			caseLine := fmt.Sprintf("cli.extract it=%d opts=%s prior=%s store-lacks-a-chunk=%v chunks=%d", it, strings.Join(opts, "_"), prior, lacking, len(idx.Chunks))
+			rep.Count(caseLine, true, "cli.extract", fmt.Sprintf("cli-exit0:%v", err == nil))
+			switch {
+			case err == nil && string(got) != string(blob):
+				rep.Disagree(Disagreement{Kind: "monitor", Case: caseLine, What: fmt.Sprintf("desync extract exited with status 0 but the output (%d bytes) is not the blob (%d bytes)", len(got), len(blob))})
+			case err != nil && !lacking:
+				rep.Disagree(Disagreement{Kind: "monitor", Case: caseLine, What: "desync extract failed although the store holds every chunk: " + err.Error()})
+			}
+		}
+	}
 }
 
 // replay: the case on the real code, in the canonical form of the model's answer
